@@ -40,29 +40,43 @@ type Obligation struct {
 	Retried  bool // needed the second (quiet, longer) solving pass
 }
 
+// Script: the SMT text under construction for one function under contract. Inlined callees
+// (in-repo functions without a contract) are encoded by a sub-encoder that shares it.
+type Script struct {
+	decls     []string
+	declSet   map[string]bool
+	body      []string
+	obls      []*Obligation
+	uniq      int
+	mems      map[string]MemRef
+	ordinals  map[string]int
+	defined   map[string]int
+	wfSeen    map[string]bool
+	pendingWF []string
+	inlines   int
+	inlined   []string // callees verified by inlining (reported in the evidence)
+}
+
 type Enc struct {
+	*Script
 	w      *World
 	fn     *ssa.Function
 	c      *Contract
 	key    string
 	pkg    *types.Package
-	decls  []string
-	declSet map[string]bool
-	body   []string
+	tag    string   // suffix of block-level SMT names ("" top level, "_i<k>" for the k-th inlined call)
+	inlineStack []*ssa.Function
+	entryReach string
 	vals   map[ssa.Value]interface{} // Term | []Term | *Addr
 	reach  map[*ssa.BasicBlock]string
 	out    map[*ssa.BasicBlock]*State
 	edge   map[[2]int]string // (from,to) -> condition term name
 	entry  *State
-	obls   []*Obligation
-	uniq   int
-	mems   map[string]MemRef
 	params map[string]Term
 	modAddrs []*Addr // caller's modifies, evaluated at entry
 	cur    *State
 	curBlk *ssa.BasicBlock
 	curReach string
-	ordinals map[string]int
 	ghost  map[string]Term
 	loops  map[*ssa.BasicBlock]*loopInfo
 	failed []string // reasons the function left the subset
@@ -73,9 +87,6 @@ type Enc struct {
 	resultTypes []types.Type
 	pendingCopyOut []copyOut
 	curCall *ssa.Call
-	defined map[string]int
-	wfSeen  map[string]bool
-	pendingWF []string
 	lemmaMode bool // proving a `derives` clause: no body, no frame obligations
 }
 
@@ -221,9 +232,10 @@ func (e *Enc) flushWF() {
 
 func newEnc(w *World, fn *ssa.Function, c *Contract) *Enc {
 	e := &Enc{
-		w: w, fn: fn, c: c, key: c.Key, declSet: map[string]bool{}, vals: map[ssa.Value]interface{}{},
+		Script: &Script{declSet: map[string]bool{}, mems: map[string]MemRef{}, ordinals: map[string]int{}},
+		w:      w, fn: fn, c: c, key: c.Key, vals: map[ssa.Value]interface{}{},
 		reach: map[*ssa.BasicBlock]string{}, out: map[*ssa.BasicBlock]*State{}, edge: map[[2]int]string{},
-		mems: map[string]MemRef{}, params: map[string]Term{}, ordinals: map[string]int{}, ghost: map[string]Term{},
+		params: map[string]Term{}, ghost: map[string]Term{},
 		loops: map[*ssa.BasicBlock]*loopInfo{}, nameDefs: map[string][]*ssa.DebugRef{},
 	}
 	if fn.Pkg != nil {
@@ -521,7 +533,7 @@ func (e *Enc) block(b *ssa.BasicBlock) {
 		}
 		ins = append(ins, inEdge{p, c, i})
 	}
-	rname := fmt.Sprintf("r_%d", b.Index)
+	rname := fmt.Sprintf("r%s_%d", e.tag, b.Index)
 	// tail duplication: a block that only returns is evaluated once per incoming edge, on that
 	// edge's own state -- postconditions then never see ite-merged memories
 	if _, isRet := b.Instrs[len(b.Instrs)-1].(*ssa.Return); isRet && len(ins) > 1 && e.loops[b] == nil && len(b.Succs) == 0 {
@@ -533,7 +545,7 @@ func (e *Enc) block(b *ssa.BasicBlock) {
 		e.reach[b] = rname
 		for k, in := range ins {
 			e.cur = e.out[in.p].clone()
-			e.curReach = e.define(fmt.Sprintf("r_%d_e%d", b.Index, k), "Bool", in.cond)
+			e.curReach = e.define(fmt.Sprintf("r%s_%d_e%d", e.tag, b.Index, k), "Bool", in.cond)
 			for _, instr := range b.Instrs {
 				if phi, ok := instr.(*ssa.Phi); ok {
 					v := e.term(phi.Edges[in.idx])
@@ -548,7 +560,11 @@ func (e *Enc) block(b *ssa.BasicBlock) {
 		return
 	}
 	if b.Index == 0 {
-		e.define(rname, "Bool", "true")
+		er := "true"
+		if e.entryReach != "" {
+			er = e.entryReach
+		}
+		e.define(rname, "Bool", er)
 		e.cur = e.cur.clone()
 	} else {
 		var cs []string
@@ -594,7 +610,7 @@ func (e *Enc) block(b *ssa.BasicBlock) {
 			for i := len(ins) - 2; i >= 0; i-- {
 				t = fmt.Sprintf("(ite %s %s %s)", ins[i].cond, get(e.out[ins[i].p], k), t)
 			}
-			return e.define(fmt.Sprintf("%s_b%d", strings.TrimPrefix(k, "$"), b.Index), sort, t)
+			return e.define(fmt.Sprintf("%s%s_b%d", strings.TrimPrefix(k, "$"), e.tag, b.Index), sort, t)
 		}
 		if len(ins) == 0 {
 			// unreachable block
@@ -638,7 +654,7 @@ func (e *Enc) block(b *ssa.BasicBlock) {
 		if t == "" {
 			t = w.reg.zero(phi.Type())
 		}
-		name := e.define(fmt.Sprintf("v_%s_in", sanitize(phi.Name())), sortS, t)
+		name := e.define(fmt.Sprintf("v_%s%s_in", sanitize(phi.Name()), e.tag), sortS, t)
 		phiIn[phi] = name
 		if li == nil {
 			e.vals[phi] = mkTerm(w, name, phi.Type())
@@ -1237,10 +1253,10 @@ func describeAddr(v ssa.Value) string {
 }
 
 func (e *Enc) setEdge(from, to *ssa.BasicBlock, cond string) {
-	name := fmt.Sprintf("e_%d_%d", from.Index, to.Index)
+	name := fmt.Sprintf("e%s_%d_%d", e.tag, from.Index, to.Index)
 	if _, dup := e.edge[[2]int{from.Index, to.Index}]; dup {
 		// both branches of an If lead to the same block
-		name = fmt.Sprintf("e_%d_%d_b", from.Index, to.Index)
+		name = fmt.Sprintf("e%s_%d_%d_b", e.tag, from.Index, to.Index)
 		prev := e.edge[[2]int{from.Index, to.Index}]
 		e.define(name, "Bool", or(prev, cond))
 		e.edge[[2]int{from.Index, to.Index}] = name
@@ -1532,41 +1548,101 @@ func (e *Enc) nextInstr(in *ssa.Next) {
 
 // ---- exit -----------------------------------------------------------------------------
 
-func (e *Enc) exit() {
-	w := e.w
-	if len(e.exits) == 0 {
-		return
+// inlineCall verifies a call to an in-repo function that has no contract against the callee's
+// BODY: the callee's SSA is encoded in place, in the caller's script and under the caller's frame
+// (extracting a helper is then neither an alarm nor a hole). Loops and recursion in such a
+// callee still need a contract.
+func (e *Enc) inlineCall(callee *ssa.Function, args []Term, pos token.Pos) []Term {
+	if len(e.inlineStack) >= 4 {
+		panic(unsupported("call to " + e.w.fnKey(callee) + " which has no contract (inlining depth exceeded)"))
 	}
-	e.curBlk = nil
+	for _, f := range append(e.inlineStack, e.fn) {
+		if f == callee {
+			panic(unsupported("recursive call to " + e.w.fnKey(callee) + " which has no contract"))
+		}
+	}
+	e.inlines++
+	e.inlined = append(e.inlined, e.w.fnKey(callee))
+	c2 := &Contract{Key: e.key, Pkg: e.c.Pkg, Props: e.c.Props, ModGiven: e.c.ModGiven, Loops: map[int]*LoopSpec{}, Options: map[string]string{}, AllocBound: nil}
+	sub := &Enc{
+		Script: e.Script, w: e.w, fn: callee, c: c2, key: e.key, vals: map[ssa.Value]interface{}{},
+		reach: map[*ssa.BasicBlock]string{}, out: map[*ssa.BasicBlock]*State{}, edge: map[[2]int]string{},
+		params: map[string]Term{}, ghost: e.ghost, loops: map[*ssa.BasicBlock]*loopInfo{}, nameDefs: map[string][]*ssa.DebugRef{},
+		tag: fmt.Sprintf("_i%d", e.inlines), inlineStack: append(append([]*ssa.Function{}, e.inlineStack...), e.fn),
+		entry: e.entry, modAddrs: e.modAddrs, initPhase: e.initPhase, entryReach: e.curReach,
+	}
+	if callee.Pkg != nil {
+		sub.pkg = callee.Pkg.Pkg
+	} else if callee.Origin() != nil {
+		sub.pkg = callee.Origin().Pkg.Pkg
+	}
+	for i, p := range callee.Params {
+		if i < len(args) {
+			a := args[i]
+			a.T = p.Type()
+			sub.vals[p] = a
+			sub.params[p.Name()] = a
+		}
+	}
+	if sig := callee.Signature; sig.Results() != nil {
+		for i := 0; i < sig.Results().Len(); i++ {
+			sub.resultTypes = append(sub.resultTypes, sig.Results().At(i).Type())
+		}
+	}
+	sub.cur = e.cur.clone()
+	sub.curReach = e.curReach
+	for _, b := range callee.Blocks {
+		for _, in := range b.Instrs {
+			if d, ok := in.(*ssa.DebugRef); ok {
+				if obj := d.Object(); obj != nil {
+					sub.nameDefs[obj.Name()] = append(sub.nameDefs[obj.Name()], d)
+				}
+			}
+			if ci, ok := in.(ssa.CallInstruction); ok {
+				if cc := ci.Common().StaticCallee(); cc != nil {
+					if k := e.w.fnKey(cc); e.w.extFn[k] == nil {
+						e.w.extFn[k] = cc
+					}
+				}
+			}
+		}
+	}
+	sub.findLoops()
+	for _, b := range sub.rpo() {
+		sub.block(b)
+	}
+	e.pendingCopyOut = append(e.pendingCopyOut, sub.pendingCopyOut...)
+	if len(sub.exits) == 0 {
+		// the callee never returns normally on this path (it panics): nothing is reachable after the call
+		e.assume("false")
+		var res []Term
+		for _, t := range sub.resultTypes {
+			res = append(res, mkTerm(e.w, e.w.reg.zero(t), t))
+		}
+		return res
+	}
+	_, rets, st := sub.mergeExits()
+	e.cur = st
+	return rets
+}
+
+// mergeExits joins the return sites: reachability, result terms and final state.
+func (e *Enc) mergeExits() (rx string, rets []Term, st *State) {
+	w := e.w
 	var cs []string
 	for _, x := range e.exits {
 		cs = append(cs, x.reach)
 	}
-	rx := e.define("r_exit", "Bool", or(cs...))
-	// merged results
-	vars := map[string]Term{}
-	for k, v := range e.params {
-		vars[k] = v
-	}
+	rx = e.define("r"+e.tag+"_exit", "Bool", or(cs...))
 	for i, t := range e.resultTypes {
 		v := e.exits[len(e.exits)-1].vals[i].S
 		for j := len(e.exits) - 2; j >= 0; j-- {
 			v = fmt.Sprintf("(ite %s %s %s)", e.exits[j].reach, e.exits[j].vals[i].S, v)
 		}
-		n := e.define(fmt.Sprintf("ret%d", i), w.reg.sortOf(t), v)
-		tm := mkTerm(w, n, t)
-		vars[fmt.Sprintf("ret%d", i)] = tm
-		if len(e.resultTypes) == 1 {
-			vars["ret"] = tm
-		}
-		if nr := e.fn.Signature.Results().At(i).Name(); nr != "" && nr != "_" {
-			if _, clash := vars[nr]; !clash {
-				vars[nr] = tm
-			}
-		}
+		n := e.define(fmt.Sprintf("ret%s%d", e.tag, i), w.reg.sortOf(t), v)
+		rets = append(rets, mkTerm(w, n, t))
 	}
-	// merged final state
-	st := &State{mem: map[string]string{}}
+	st = &State{mem: map[string]string{}}
 	names := map[string]bool{}
 	for _, x := range e.exits {
 		for k := range x.st.mem {
@@ -1586,10 +1662,20 @@ func (e *Enc) exit() {
 	sort.Strings(ks)
 	for _, k := range ks {
 		v := get(e.exits[len(e.exits)-1].st, k)
+		same := true
+		for j := len(e.exits) - 2; j >= 0; j-- {
+			if get(e.exits[j].st, k) != v {
+				same = false
+			}
+		}
+		if same {
+			st.mem[k] = v
+			continue
+		}
 		for j := len(e.exits) - 2; j >= 0; j-- {
 			v = fmt.Sprintf("(ite %s %s %s)", e.exits[j].reach, get(e.exits[j].st, k), v)
 		}
-		st.mem[k] = e.define(k+"_exit", e.mems[k].Sort, v)
+		st.mem[k] = e.define(k+e.tag+"_exit", e.mems[k].Sort, v)
 	}
 	wv := e.exits[len(e.exits)-1].st.W
 	av := e.exits[len(e.exits)-1].st.A
@@ -1599,9 +1685,34 @@ func (e *Enc) exit() {
 		av = fmt.Sprintf("(ite %s %s %s)", e.exits[j].reach, e.exits[j].st.A, av)
 		hv = fmt.Sprintf("(ite %s %s %s)", e.exits[j].reach, e.exits[j].st.H, hv)
 	}
-	st.W = e.define("W_exit", "Int", wv)
-	st.A = e.define("A_exit", wideSort, av)
-	st.H = e.define("H_exit", "Int", hv)
+	st.W = e.define("W"+e.tag+"_exit", "Int", wv)
+	st.A = e.define("A"+e.tag+"_exit", wideSort, av)
+	st.H = e.define("H"+e.tag+"_exit", "Int", hv)
+	return rx, rets, st
+}
+
+func (e *Enc) exit() {
+	w := e.w
+	if len(e.exits) == 0 {
+		return
+	}
+	e.curBlk = nil
+	rx, rets, st := e.mergeExits()
+	vars := map[string]Term{}
+	for k, v := range e.params {
+		vars[k] = v
+	}
+	for i, tm := range rets {
+		vars[fmt.Sprintf("ret%d", i)] = tm
+		if len(e.resultTypes) == 1 {
+			vars["ret"] = tm
+		}
+		if nr := e.fn.Signature.Results().At(i).Name(); nr != "" && nr != "_" {
+			if _, clash := vars[nr]; !clash {
+				vars[nr] = tm
+			}
+		}
+	}
 	e.cur = st
 	e.curReach = rx
 	vo := e.oblige("vacuity", "exit-reachable", "false", "some return must be reachable under the contract's assumptions", nil, e.fn.Pos())
